@@ -153,6 +153,8 @@ package larking
 //@      : (JStr(S, g, k-1) ? S[g+k-1] != 34 : S[g+k-1] == 34))
 //@ rec JDep(S, g, k) Int = k <= 0 ? 0 : JDep(S, g, k-1)
 //@      + ((!JEsc(S, g, k-1) && !JStr(S, g, k-1)) ? (S[g+k-1] == 123 ? 1 : (S[g+k-1] == 125 ? -1 : 0)) : 0)
+// A message ends after k bytes: an unquoted '}' that returns the depth to 0.
+//@ spec JDoneAt(S, g, k) = !JEsc(S, g, k-1) && !JStr(S, g, k-1) && S[g+k-1] == 125 && JDep(S, g, k) == 0
 //@ spec JScan(S, g, i, braceCount, isString, isEscaped) = braceCount == JDep(S, g, i) && (isString <==> JStr(S, g, i)) && (isEscaped <==> JEsc(S, g, i))
 
 //@ func (CodecJSON).ReadNext serves C17 C06 C08 C09
@@ -168,13 +170,18 @@ package larking
 //@   ensures [frame] err == nil ==> n >= 1 && JDep(rdS(r), g0, n) == 0 && !JStr(rdS(r), g0, n-1) && !JEsc(rdS(r), g0, n-1) && rdS(r)[g0+n-1] == 125
 //@   ensures [err-nomsg] err != nil ==> n == 0
 //@   ensures [too-large-only-at-limit] errtype(err, "*protodelim.SizeTooLargeError") ==> len(dst) >= limit
+//@   ensures [too-large-only-without-frame C08 C17] errtype(err, "*protodelim.SizeTooLargeError") ==> (forall k :: 1 <= k && k <= limit ==> !JDoneAt(rdS(r), g0, k))
+//@   ensures [frame-least C17 C06] err == nil ==> (forall k :: 1 <= k && k < n ==> !JDoneAt(rdS(r), g0, k))
 //@   ensures [clean-eof] err == io.EOF ==> JDep(rdS(r), g0, len(dst)) == 0
 //@   oracle (n >= 0 && n <= len(dst)) && (err != io.EOF || verifJSONDepth(dst) == 0)
 //@   loop 1 invariant 0 <= i && i <= limit && i <= len(b) && Buffered(b, r, g0) && (base(b) == base(old(b)) || isfresh(b))
 //@   loop 1 invariant JScan(rdS(r), g0, i, braceCount, isString, isEscaped) && 0 <= braceCount && braceCount <= i
+//@   loop 1 invariant forall k :: 1 <= k && k <= i ==> !JDoneAt(rdS(r), g0, k)
+//@   loop 1 unfold JDep(rdS(r), g0, i+1) + (JStr(rdS(r), g0, i+1) ? 1 : 0) + (JEsc(rdS(r), g0, i+1) ? 1 : 0)
 //@   loop 1 decreases limit - i
 //@   loop 2 invariant 0 <= i && i < limit && i <= len(b) && Buffered(b, r, g0) && (base(b) == base(old(b)) || isfresh(b))
 //@   loop 2 invariant JScan(rdS(r), g0, i, braceCount, isString, isEscaped) && 0 <= braceCount && braceCount <= i
+//@   loop 2 invariant forall k :: 1 <= k && k <= i ==> !JDoneAt(rdS(r), g0, k)
 //@   loop 2 decreases i + 1 - len(b) assuming ReaderProgress
 
 // Writers: wrout(w) is everything written to w so far, wrlen(w) its length.
